@@ -196,6 +196,16 @@ class Folder:
                 return self.fold(onode, om, None, self_class)
             finally:
                 self._active.discard(key)
+        if ref.startswith('ext:'):
+            # constants of pure standard-library modules (decimal.ROUND_UP, math.pi) are values, not symbols
+            import decimal as _decimal
+            import math as _math
+            parts = ref[4:].split('.')
+            lib = {'decimal': _decimal, 'math': _math}.get(parts[0])
+            if lib is not None and len(parts) == 2:
+                val = getattr(lib, parts[1], None)
+                if isinstance(val, (str, int, float)) and not isinstance(val, bool):
+                    return val
         return Ref(ref)
 
     def _call(self, node, m, env, self_class):
